@@ -993,7 +993,42 @@ def rule_Q7(F, R):
                 flat += ch
         if not re.search(r"\btasks\b", q, re.I):
             R.violation("Q7", b["owner_fn"], "orphan-test", "the removal of operations is not tied to the task no longer existing: %s" % q[:100], where(b))
-        elif re.search(r"\bsynced\b", flat, re.I):
-            R.violation("Q7", b["owner_fn"], "orphan-removal-restricted-by-synced", "the removal of orphaned operations is restricted by the `synced` flag (%s): operations synchronised earlier stay behind when their task is deleted later, unlike in the in-memory storage" % flat.strip()[:80], where(b))
+        elif re.search(r"\bsynced\b", (q[q.lower().index("where"):] if "where" in q.lower() else ""), re.I):
+            R.violation("Q7", b["owner_fn"], "orphan-removal-restricted-by-synced", "the removal of orphaned operations consults the `synced` flag (%s): operations synchronised earlier stay behind when their task goes away later, unlike in the in-memory storage" % q[q.lower().index("where"):][:110], where(b))
         else:
             R.ok("Q7", "orphaned operations removed regardless of the synced flag", where(b))
+
+
+def rule_Q8(F, R):
+    R.begin("Q8", "sibling agreement on the length of the working set: SQLite derives the next index from MAX(id), so blanking the last entry shortens the working set at once; the in-memory transaction must drop trailing blanks in the same call that writes one (set_working_set_item), not later, or the next add_to_working_set in the same transaction returns a different index than SQLite")
+    norm = None
+    for p_, b in F.bodies.items():
+        if "storage::inmemory" not in p_ or b["kind"] not in ("AssocFn", "Fn") or not b.get("blocks"):
+            continue
+        c = cfg_of(b)
+        if c.loops() and any(any(x.endswith("Vec::<T, A>::pop") for x in call_names(t)) for (_i, t) in c.calls()) and any(any(x.endswith("::last") for x in call_names(t)) for (_i, t) in c.calls()):
+            norm = p_
+    if norm is None:
+        R.missing("Q8", "the in-memory function that pops trailing blanks off the working set")
+        return
+    target = None
+    for im in F.impls_of_trait.get(TXN, []):
+        if "inmemory" in im["self"]:
+            for it in im["items"]:
+                if it["name"] == "set_working_set_item":
+                    target = F.real_body(it["path"])
+    if target is None:
+        R.missing("Q8", "the in-memory set_working_set_item")
+        return
+    c = cfg_of(target)
+    nn = re.sub(r"::<[^>]*>", "", norm)
+    bad = False
+    for pth in SymExec(target, c, max_paths=2000).run():     # feasible paths only (async_trait's constant test is decided)
+        if pth.end[0] != "return" or (pth.ret and pth.ret[0] == "A" and pth.ret[2] == "Err"):
+            continue
+        if not any(re.sub(r"::<[^>]*>", "", x) == nn for e in pth.events for x in e["names"]):
+            bad = True
+    if bad:
+        R.violation("Q8", target["owner_fn"], "blank-tail-not-trimmed", "the in-memory set_working_set_item can return successfully without dropping trailing blanks: after blanking the last entry the next add_to_working_set in the same transaction gets the index after the blank, while SQLite reuses it", where(target))
+    else:
+        R.ok("Q8", "in-memory set_working_set_item trims trailing blanks before returning", where(target))
